@@ -18,7 +18,8 @@ What is proved here
 * **T2** (convex hull, for *every* sort comparator, i.e. also for the rounded `f32` keys):
   hull ⊆ input; consecutive triples turn strictly left (exact cross product), hence adjacent
   hull points are distinct; the hull starts with the first sorted point, which is the
-  `min_by` point whenever that point's key sorts first.
+  `min_by` point whenever that point's key sorts first.  The code's key order `keyLe` and its
+  orientation form `exactLe` give the same hull (`hullKey_eq_hullExact`, `Props/C35Order`).
 * **T4** (`min_area_rect`, exact arithmetic, un-normalised axes): the projection fold bounds
   every hull point, `min_par ≤ par(p) ≤ max_par`, `perp(p) ≤ max_perp` (`c35_edgeBounds_spec`);
   the missing lower bound `0 ≤ perp(p)` is literally the containment statement S3
@@ -341,7 +342,8 @@ theorem isort_head_min (pt : α → Pt) (le : α → α → Bool) (m : Pt) :
 
 /-- **C35.T2g** The hull starts at the `min_by` point, provided the comparator is total on
 the input and sorts the entries of that point strictly first (the code gives them the key
-`-inf`; `c35_hullExact_starts_min` discharges both hypotheses for the code's comparator). -/
+`-inf`; `c35_hullExact_starts_min` discharges both hypotheses for the orientation form of the
+code's order, `c35_hullKey_*` in `Props/C35Order` transfer the results to the key order). -/
 theorem c35_hull_starts_min (pt : α → Pt) (le : α → α → Bool) (xs : List α) (m : Pt)
     (hm : minPoint (xs.map pt) = some m)
     (htot : ∀ x ∈ xs, ∀ y ∈ xs, le x y = true ∨ le y x = true)
@@ -353,7 +355,8 @@ theorem c35_hull_starts_min (pt : α → Pt) (le : α → α → Bool) (xs : Lis
   obtain ⟨z, hz, hzm⟩ := isort_head_min pt le m xs htot hfirst ⟨x, hx, hxm⟩
   rw [hz]; simp [hzm]
 
-/-- **C35.T2h** `convex_hull` (the code's own comparator): the hull starts at the `min_by`
+/-- **C35.T2h** `convex_hull` (orientation form `exactLe` of the sort order; equal to the code's key
+order by `hullKey_eq_hullExact`): the hull starts at the `min_by`
 point, for every input. -/
 theorem c35_hullExact_starts_min (pts : List Pt) (m : Pt) (hm : minPoint pts = some m) :
     (hullExact pts).head? = some m := by
@@ -374,7 +377,7 @@ theorem c35_hullExact_starts_min (pts : List Pt) (m : Pt) (hm : minPoint pts = s
     simp only [id] at hx hy
     simp [exactLe, hx, hy]
 
-/-- **C35.T2a/b for the code's comparator** (instances of the generic theorems): the hull of
+/-- **C35.T2a/b for `hullExact`** (instances of the generic theorems; `hullKey = hullExact`): the hull of
 `convex_hull` uses only input points and every three consecutive hull points turn strictly
 left. -/
 theorem c35_hullExact_subset_turns (pts : List Pt) :
